@@ -138,7 +138,8 @@ def instances(tier, seed):
     # header-field width boundaries: number of cells (size field and every reference index) and bytes of cell data
     # (off_bytes, the index entries and - doubled - the entries with cache bits)
     for n in (255, 256, 257) + ((65535, 65536, 65537) if tier == 'thorough' else ()):
-        for o in (OPTIONS[0], OPTIONS[5]) if tier == 'quick' else OPTIONS:
+        # (a 65 536-cell bag costs minutes per instance under the strict decoder: two option sets there, all six at 255..257)
+        for o in (OPTIONS[0], OPTIONS[5]) if (tier == 'quick' or n > 1000) else OPTIONS:
             yield 'h_wire_big', dict(kind='cells', n=n, opts=o)
     for n in (127, 128, 129, 255, 256, 257) + ((32767, 32768, 32769, 65535, 65536, 65537) if tier == 'thorough' else (32768, 65536)):
         for o in OPTIONS:
@@ -149,6 +150,7 @@ def twins(tier, seed):
     yield 'h_wire', dict(shape=[[1], []], opts=OPTIONS[0], twin='count')
 
 
+INSTANCE_TIMEOUT = {'quick': 200, 'thorough': 1500}
 BOUNDS = {
     'DAG shapes': 'as C03: every rooted DAG with <= 3 cells, 4 cells with out-degree <= 2, the families, may-be-equal pairs, 5 exotic trees',
     'contents': 'all data bits symbolic',
